@@ -1179,10 +1179,20 @@ fn builtin_rand(args: Vec<Rc<Object>>) -> Result<Rc<Object>, String> {
     };
     match max.as_ref() {
         Object::Integer(n) => {
+            // An empty range cannot be sampled
+            if *n < 0 {
+                return Err(String::from("maximum should not be negative"));
+            }
             let r = rng.gen_range(0..=*n) as i64;
             Ok(Rc::new(Object::Integer(r)))
         }
         Object::Float(n) => {
+            // Neither can one that is empty or has no finite end
+            if !(*n >= 0.0 && n.is_finite()) {
+                return Err(String::from(
+                    "maximum should be a finite non-negative number",
+                ));
+            }
             let r = rng.gen_range(0.0..=*n) as f64;
             Ok(Rc::new(Object::Float(r)))
         }
